@@ -33,7 +33,7 @@ def named_fn(arg, f, hook=None, tag=None):
 
 
 GRAPHS = ["lin_s", "lin_d_s", "gmrf_d_s", "lmrf_d", "two_lik", "nonlin", "xz_s", "laplace_b", "mean_m", "cmrf_d",
-          "lognormal", "lognormal_cov_s", "lin_sqrtprecF", "reg_d", "lin_geom", "sigdep_x", "direct_param", "cov_sd", "selfnamed", "cov_sdt", "lin_step"]   # ("reg_s" is buildable but RegularizedGaussian has no log-density: not a C01/C11 graph)
+          "lognormal", "lognormal_cov_s", "lin_sqrtprecF", "reg_d", "lin_geom", "sigdep_x", "direct_param", "cov_sd", "selfnamed", "cov_sdt", "lin_step", "kl_nonlin"]   # ("reg_s" is buildable but RegularizedGaussian has no log-density: not a C01/C11 graph)
 
 
 def _lg(r, cov):
@@ -189,6 +189,18 @@ def build(rec, hook=None):
         A3 = rs.randn(m, 3 * n)
         x = Gaussian(np.zeros(n), 0.8, geometry=StepExpansion(np.linspace(0, 1, 3 * n), n_steps=n), name="x")
         M = LinearModel(A3, domain_geometry=StepExpansion(np.linspace(0, 1, 3 * n), n_steps=n), range_geometry=m)
+        y = Gaussian(M(x), cov=inv("s", "y.cov"), name="y")
+        dens = [y, x, s]
+        vals = {"y": ydata, "x": xval, "s": pos()}
+        out["models"]["A"] = M
+    elif g == "kl_nonlin":
+        # KL-expansion geometry (n coefficients -> 12 node values, coefficient table computed lazily on first use);
+        # prior and model carry equal but distinct geometry objects, the model acts on function values
+        from cuqi.geometry import KLExpansion
+        s = Gamma(1.0, 0.1, name="s")
+        A12 = rs.randn(m, 12)
+        x = Gaussian(np.zeros(n), 0.8, geometry=KLExpansion(np.linspace(0, 1, 12), num_modes=n), name="x")
+        M = Model(lambda x: A12 @ np.tanh(x), range_geometry=m, domain_geometry=KLExpansion(np.linspace(0, 1, 12), num_modes=n))
         y = Gaussian(M(x), cov=inv("s", "y.cov"), name="y")
         dens = [y, x, s]
         vals = {"y": ydata, "x": xval, "s": pos()}
